@@ -2743,7 +2743,13 @@ primary_expression
           {
             case OBJECT_TYPE_INTEGER:
               $$.type = EXPRESSION_TYPE_INTEGER;
-              $$.value.integer = $1.value.object->value.i;
+              // An object without a parent is an external variable. Its
+              // value can be redefined after compilation, so it can't be
+              // used as a compile-time constant (e.g. as the fixed offset
+              // in "$a at ext" or in range checks).
+              $$.value.integer = $1.value.object->parent == NULL
+                  ? YR_UNDEFINED
+                  : $1.value.object->value.i;
               break;
             case OBJECT_TYPE_FLOAT:
               $$.type = EXPRESSION_TYPE_FLOAT;
